@@ -765,4 +765,160 @@ theorem inv_put {g : Graph V} (wf : WF g) {s : St V} (h : Inv g s) (i : Nat) (t 
         unfold get; simp [Nat.le_of_not_lt hi]
       rw [this]; exact h
 
+
+/-! ### the individual axis made concrete: values are functions of the individual index -/
+
+variable {R : Type}
+
+/-- Values carrying (or broadcast along) the individual axis: one component per individual.
+    A population-level value is a constant function. -/
+abbrev IVal (R : Type) := Nat → R
+
+/-- the entry-wise selection of a per-individual revert (`m r` = individual `r` is reverted to the old value) -/
+def mixI (m : Nat → Bool) (o c : IVal R) : IVal R := fun r => if m r then o r else c r
+
+/-- the node function is computed individual by individual: component `r` of the result only depends on the
+    components `r` of the arguments -/
+def Rowwise (f : List (IVal R) → IVal R) : Prop :=
+  ∀ (ps qs : List (IVal R)) (r : Nat), ps.map (fun v => v r) = qs.map (fun v => v r) → f ps r = f qs r
+
+/-- `k` depends on `i` only through nodes that are computed individual by individual -/
+inductive RowwiseFrom (g : Graph (IVal R)) (i : Nat) : Nat → Prop
+  | node {k} : g.kind k = .linked → Rowwise (g.fn k) →
+      (∀ p ∈ g.parents k, p ≠ i → p ∈ g.desc i → RowwiseFrom g i p) → RowwiseFrom g i k
+
+theorem mixI_self (m : Nat → Bool) (a : IVal R) : mixI m a a = a := by
+  funext r; simp [mixI]
+
+theorem mapM_some_of_forall {ps : List Nat} {c : Cache (IVal R)} {f : Nat → IVal R}
+    (h : ∀ p ∈ ps, c p = some (f p)) : ps.mapM c = some (ps.map f) := by
+  induction ps with
+  | nil => rfl
+  | cons p ps ih =>
+    simp only [List.mapM_cons, List.map_cons]
+    rw [h p (by simp), ih (fun q hq => h q (by simp [hq]))]
+    rfl
+
+theorem mapM_eq_some_iff {ps : List Nat} {c : Cache (IVal R)} {vs : List (IVal R)} :
+    ps.mapM c = some vs → ∀ p ∈ ps, ∃ v, c p = some v := by
+  intro h p hp
+  have := (mapM_some_iff.1 ⟨vs, h⟩) p hp
+  cases hc : c p with
+  | none => exact absurd hc this
+  | some v => exact ⟨v, rfl⟩
+
+theorem mapM_length {ps : List Nat} {c : Cache (IVal R)} {vs : List (IVal R)} (h : ps.mapM c = some vs) :
+    vs.length = ps.length := by
+  induction ps generalizing vs with
+  | nil => simp at h; subst h; rfl
+  | cons p ps ih =>
+    simp only [List.mapM_cons] at h
+    cases hp : c p with
+    | none => simp [hp] at h
+    | some v =>
+      cases hps : ps.mapM c with
+      | none => simp [hp, hps] at h
+      | some ws =>
+        simp [hp, hps] at h
+        subst h
+        simp [ih hps]
+
+/-- parents evaluated under the mixed assignment are the entry-wise mix of the parents under the two assignments -/
+theorem mapM_mix {m : Nat → Bool} {ps : List Nat} {c c' c'' : Cache (IVal R)} {vs vs' : List (IVal R)}
+    (h : ps.mapM c = some vs) (h' : ps.mapM c' = some vs')
+    (hp : ∀ p ∈ ps, ∀ a b, c p = some a → c' p = some b → c'' p = some (mixI m a b)) :
+    ps.mapM c'' = some (List.zipWith (mixI m) vs vs') := by
+  induction ps generalizing vs vs' with
+  | nil => simp at h h'; subst h; subst h'; rfl
+  | cons p ps ih =>
+    simp only [List.mapM_cons] at h h' ⊢
+    cases hc : c p with
+    | none => simp [hc] at h
+    | some a =>
+      cases hc' : c' p with
+      | none => simp [hc'] at h'
+      | some b =>
+        cases hps : ps.mapM c with
+        | none => simp [hc, hps] at h
+        | some ws =>
+          cases hps' : ps.mapM c' with
+          | none => simp [hc', hps'] at h'
+          | some ws' =>
+            simp [hc, hps] at h
+            simp [hc', hps'] at h'
+            subst h; subst h'
+            rw [hp p (by simp) a b hc hc', ih hps hps' (fun q hq => hp q (by simp [hq]))]
+            rfl
+
+theorem rowwise_mix {f : List (IVal R) → IVal R} (hf : Rowwise f) (m : Nat → Bool) {vs vs' : List (IVal R)}
+    (hl : vs.length = vs'.length) : f (List.zipWith (mixI m) vs vs') = mixI m (f vs) (f vs') := by
+  funext r
+  unfold mixI
+  by_cases hm : m r = true
+  · simp only [hm, if_true]
+    apply hf
+    induction vs generalizing vs' with
+    | nil => cases vs' <;> simp_all
+    | cons a vs ih =>
+      cases vs' with
+      | nil => simp at hl
+      | cons b vs' =>
+        simp only [List.zipWith_cons_cons, List.map_cons]
+        rw [ih (by simpa using hl)]
+        simp [hm]
+  · simp only [hm, Bool.false_eq_true, if_false]
+    apply hf
+    induction vs generalizing vs' with
+    | nil => cases vs' <;> simp_all
+    | cons a vs ih =>
+      cases vs' with
+      | nil => simp at hl
+      | cons b vs' =>
+        simp only [List.zipWith_cons_cons, List.map_cons]
+        rw [ih (by simpa using hl)]
+        simp [hm]
+
+/-- **The documented precondition, structurally.**  If `k` depends on the assigned variable `i` only through
+    variables computed individual by individual, then `k` commutes with the entry-wise mix of a per-individual revert. -/
+theorem commutes_of_rowwise {g : Graph (IVal R)} (wf : WF g) {i : Nat} (hi : i < g.n) {b : Bool}
+    (hki : g.kind i = .indep b) (m : Nat → Bool) {k : Nat} (hrow : RowwiseFrom g i k) (hk : k < g.n) :
+    Commutes g mixI m i k := by
+  intro ind x y
+  have agree : ∀ (u v : IVal R) (j : Nat), j ≠ i → upd ind i (some u) j = upd ind i (some v) j := by
+    intro u v j hj; simp [upd, hj]
+  induction hrow with
+  | @node k hkl hrw hpar ih =>
+    intro o c ho hc
+    rw [spec_linked wf _ hk hkl] at ho hc ⊢
+    cases hvs : (g.parents k).mapM (spec g (upd ind i (some x))) with
+    | none => simp [hvs] at ho
+    | some vs =>
+      cases hvs' : (g.parents k).mapM (spec g (upd ind i (some y))) with
+      | none => simp [hvs'] at hc
+      | some vs' =>
+        simp only [hvs, Option.map_some, Option.some.injEq] at ho
+        simp only [hvs', Option.map_some, Option.some.injEq] at hc
+        subst ho; subst hc
+        have hmix : (g.parents k).mapM (spec g (upd ind i (some (mixI m x y))))
+            = some (List.zipWith (mixI m) vs vs') := by
+          apply mapM_mix hvs hvs'
+          intro p hp a b' ha hb
+          have hp_lt : p < g.n := wf.parents_lt hk hkl hp
+          by_cases hpi : p = i
+          · subst hpi
+            rw [spec_indep wf _ hp_lt hki] at ha hb ⊢
+            simp only [upd, if_true, Option.some.injEq] at ha hb ⊢
+            rw [← ha, ← hb]
+          · by_cases hpd : p ∈ g.desc i
+            · exact ih p hp hpi hpd hp_lt a b' ha hb
+            · have e1 := spec_congr_nondesc wf (agree (mixI m x y) x) p hp_lt hpi hpd
+              have e2 := spec_congr_nondesc wf (agree y x) p hp_lt hpi hpd
+              rw [e2, ha] at hb
+              simp only [Option.some.injEq] at hb
+              rw [e1, ha, ← hb, mixI_self]
+        rw [hmix]
+        simp only [Option.map_some, Option.some.injEq]
+        exact rowwise_mix hrw m ((mapM_length hvs).trans (mapM_length hvs').symm)
+
+
 end LeaspyVerif.State
